@@ -38,16 +38,17 @@ inductive IPc where
   | i2                  -- process spawned
   | i3                  -- timeout registered, handed to the watcher; about to check is_canceled
   | iCancel (c : CPc)   -- the late cancel check fired: inline cancel_task
+  | iFault              -- the launch preparation raised: about to publish unschedule and advance FAILED
   | iDone
 deriving DecidableEq, Repr
 
 inductive WPc where
-  | w0                  -- next pass: read task.get('proc')
+  | wIdle               -- between two passes of `_watch` (queue drained at the start of a pass)
+  | w0                  -- about to read task.get('proc')
   | w1                  -- about to poll
-  | w2 (code : Nat)     -- exit seen: about to wait and drop from the watch list
-  | w2b (code : Nat)    -- about to delete task['proc']
+  | w2b (code : Nat)    -- exit seen, waited, dropped from the watch list: about to delete task['proc']
   | w3 (code : Nat)     -- about to take the lock and test membership
-  | w4 (code : Nat)     -- owner: outcome, publish unschedule, advance
+  | w4 (code : Nat)     -- owner: about to publish unschedule and advance (outcome already set)
 deriving DecidableEq, Repr
 
 structure ES where
@@ -58,7 +59,7 @@ structure ES where
   watching : Bool := false          -- task is in the watcher's queue / watch list
   armed    : Bool := false          -- timeout registered
   intake   : IPc := .i0
-  watcher  : WPc := .w0
+  watcher  : WPc := .wIdle
   cancels  : List CPc := []         -- running cancel_task invocations (control thread, timeout watcher)
   -- observable outputs
   started     : Nat := 0            -- advance(AGENT_EXECUTING)
@@ -97,8 +98,8 @@ def cancelPc (s : ES) : CPc → CPc
 def cancelSt (s : ES) : CPc → ES
   | .c2 => if s.inTasks then { s with inTasks := false } else s           -- `del self._tasks[tid]`
   | .c3 => { s with proc := if s.proc.isExited then s.proc else .exited 137 }   -- kill; proc.wait()
-  | .c4 => { s with procKey := false }                                    -- `del task['proc']`
-  | .c5 => { s with outcome := some .canceled, unsched := s.unsched + 1, handed := s.handed + 1 }
+  | .c4 => { s with procKey := false, outcome := some .canceled }         -- `del task['proc']`; outcome
+  | .c5 => { s with unsched := s.unsched + 1, handed := s.handed + 1 }    -- publish unschedule; advance
   | _   => s
 
 def cancelStep (s : ES) (c : CPc) : CPc × ES := (cancelPc s c, cancelSt s c)
@@ -116,22 +117,24 @@ def step (s : ES) : Choice → ES
     | .iCancel c =>
       if cancelPc s c = .cDone then { cancelSt s c with intake := .iDone }
       else { cancelSt s c with intake := .iCancel (cancelPc s c) }
+    | .iFault => { s with intake := .iDone, unsched := s.unsched + 1, failed := s.failed + 1 }
     | .iDone => s
   | .intakeFault =>
     match s.intake with
-    | .i1 => { s with intake := .iDone, unsched := s.unsched + 1, failed := s.failed + 1 }
+    | .i1 => { s with intake := .iFault }
     | _   => s
   | .watcher =>
     match s.watcher with
-    | .w0 => if s.watching then (if s.procKey then { s with watcher := .w1 } else { s with watching := false }) else s
+    | .wIdle => if s.watching then { s with watcher := .w0 } else s
+    | .w0 => if s.procKey then { s with watcher := .w1 } else { s with watcher := .wIdle, watching := false }
     | .w1 => match s.proc with
-             | .exited c => { s with watcher := .w2 c }
-             | _         => { s with watcher := .w0 }
-    | .w2 c  => { s with watcher := .w2b c, watching := false }
+             | .exited c => { s with watcher := .w2b c, watching := false }
+             | _         => { s with watcher := .wIdle }
     | .w2b c => { s with watcher := .w3 c, procKey := false }
-    | .w3 c  => if s.inTasks then { s with watcher := .w4 c, inTasks := false } else { s with watcher := .w0 }
-    | .w4 c  => { s with watcher := .w0, outcome := some (if c = 0 then .done else .failedExit),
-                         unsched := s.unsched + 1, handed := s.handed + 1 }
+    | .w3 c  => if s.inTasks then
+                  { s with watcher := .w4 c, inTasks := false, outcome := some (if c = 0 then .done else .failedExit) }
+                else { s with watcher := .wIdle }
+    | .w4 _  => { s with watcher := .wIdle, unsched := s.unsched + 1, handed := s.handed + 1 }
   | .cancel i =>
     match s.cancels[i]? with
     | none   => s
